@@ -161,9 +161,9 @@ func c15Run(c string) string {
 		}
 		var err error
 		if kind == "np" {
-			err = client.SendNodePoints(c15A.nc, id, pts, true)
+			err = noteTmo(client.SendNodePoints(c15A.nc, id, pts, true))
 		} else {
-			err = client.SendEdgePoints(c15A.nc, id, parent, pts, true)
+			err = noteTmo(client.SendEdgePoints(c15A.nc, id, parent, pts, true))
 		}
 		if err != nil {
 			return "SETUP " + op
